@@ -132,7 +132,7 @@ def evaluate(binder, st, inst, key, n):
 
 def run(ctx):
     L.seed_shuffle(ctx.rng)
-    wconsts = {"N": 3, "MaxReps": 2}
+    wconsts = {"N": 2, "MaxReps": 2}
     for w in WITNESSES:
         wcfg = tlc.write_cfg(os.path.join(ctx.scratch, w + ".cfg"), constants=wconsts, invariants=[w], deadlock=False)
         wres = tlc.check_model("TokenAware", wcfg, ctx.scratch, timeout=600)
@@ -221,7 +221,7 @@ def one_domain(ctx, n, maxreps, per_state, by_sig):
     bad2["tail"] = tuple(probe["tail"]) + (probe["head"][0],)
     r1, _ = evaluate(binder, bad1, inst, key, n)
     r2, _ = evaluate(binder, bad2, inst, key, n)
-    if not r1 or not r2:            # (`ok` may be non-empty when the driver under test is broken; that is not our concern here)
+    if r1 == ok or r2 == ok:        # the verdict must depend on the expectation (`ok` is non-empty only for a broken driver)
         raise tlc.MachineryError("binding self-test failed: corrupted expectations not noticed (%r %r %r)" % (ok, r1, r2))
     st = ctx.extra.setdefault("binding_selftest", {"corrupted_rejected": 0})
     st["corrupted_rejected"] += 2
